@@ -269,17 +269,21 @@ fn c14(tier: &str, thorough: bool) -> i32 {
         s.public_inputs.pop();
         inners.push(("Is(28 public inputs)".into(), s, false));
         let dummy_inner = inners[5].1.clone();
-        let m = 2usize;
+        let n_ok = std::sync::atomic::AtomicU64::new(0);
+        let mut n_vectors = 0usize;
+        // M=2 over the whole inner alphabet; M=3 over {a, b, h (other block), g (other fee), dummy}:
+        // a supplied all-dummy inner between two conflicting real ones needs three slots
+        for (m, sel) in [(2usize, (0..inners.len()).collect::<Vec<usize>>()), (3usize, vec![0, 1, 2, 4, 5])] {
         let w = build_pub_wrapper(m, 1, &leaf.common);
         let wcx = Cx::new(&w.data);
         let mut vectors: Vec<Vec<usize>> = vec![vec![]];
         for len in 1..=m + 1 {
-            product_indices(&vec![inners.len(); len], |ix| vectors.push(ix.to_vec()));
+            product_indices(&vec![sel.len(); len], |ix| vectors.push(ix.iter().map(|&i| sel[i]).collect()));
         }
-        let n_ok = std::sync::atomic::AtomicU64::new(0);
+        n_vectors += vectors.len();
         vectors.par_iter().for_each(|v| {
             rep.eval(1);
-            rep.distinct(hash64(&("pub", v)));
+            rep.distinct(hash64(&("pub", m, v)));
             let its: Vec<&(String, Proof, bool)> = v.iter().map(|&i| &inners[i]).collect();
             let nm: Vec<&str> = its.iter().map(|i| i.0.as_str()).collect();
             let pol: Result<(), &str> = if its.is_empty() {
@@ -304,24 +308,26 @@ fn c14(tier: &str, thorough: bool) -> i32 {
                 x
             };
             match r {
-                Err(p) => rep.violation(&format!("pub-panic:{nm:?}"), &format!("public-batch preflight panicked on {nm:?}: {p}"), case),
+                Err(p) => rep.violation(&format!("pub-panic:{m}:{nm:?}"), &format!("public-batch preflight panicked on {nm:?}: {p}"), case),
                 Ok(Ok(())) => {
                     n_ok.fetch_add(1, std::sync::atomic::Ordering::Relaxed);
                     if let Err(why) = pol {
-                        rep.violation(&format!("pub-policy:{nm:?}"), &format!("public-batch admission accepts {nm:?} although the documented policy forbids it: {why}"), case.clone());
+                        rep.violation(&format!("pub-policy:{m}:{nm:?}"), &format!("public-batch admission accepts {nm:?} although the documented policy forbids it: {why}"), case.clone());
                         return;
                     }
                     if !wcx.run(&w.inputs(dig(5), &padded()), &[], &[], false).verdict.accepted() {
-                        rep.violation(&format!("pub-unprovable:{nm:?}"), &format!("public-batch admission accepts {nm:?} but the padded batch does not satisfy the circuit"), case);
+                        rep.violation(&format!("pub-unprovable:{m}:{nm:?}"), &format!("public-batch admission accepts {nm:?} but the padded batch does not satisfy the circuit"), case);
                     }
                 }
                 Ok(Err(e)) => {
                     if pol.is_ok() && wcx.run(&w.inputs(dig(5), &padded()), &[], &[], false).verdict.accepted() {
-                        rep.violation(&format!("pub-overreject:{nm:?}"), &format!("public-batch admission rejects {nm:?} ({e}) although policy-conformant and provable"), case);
+                        rep.violation(&format!("pub-overreject:{m}:{nm:?}"), &format!("public-batch admission rejects {nm:?} ({e}) although policy-conformant and provable"), case);
                     }
                 }
             }
         });
+        }
+        let m = 2usize;
         // commit == preflight + pad + fill: a few real commits, checked by the full circuit
         let (pubc, pubt) = {
             let c = wormhole_aggregator::public_batch::circuit::circuit_logic::PublicBatchCircuit::new(zk_circuits_common::circuit::wormhole_public_batch_circuit_config(), pbv.common.clone(), &pbv.verifier_only, m, 1).unwrap();
@@ -350,7 +356,7 @@ fn c14(tier: &str, thorough: bool) -> i32 {
                 let _ = &pubt;
             }
         }
-        plan.insert("public M=2,N=1".into(), json!({"vectors": vectors.len(), "admitted": n_ok, "real_commits_checked_on_full_circuit": real_commits, "alphabet": inners.iter().map(|i| i.0.clone()).collect::<Vec<_>>()}));
+        plan.insert("public M=2,N=1".into(), json!({"vectors (M=2 over 8 inners, M=3 over 5 inners)": n_vectors, "admitted": n_ok, "real_commits_checked_on_full_circuit": real_commits, "alphabet": inners.iter().map(|i| i.0.clone()).collect::<Vec<_>>()}));
     }
     rep.extra("plan", json!(plan));
     rep.rule("case = vector (length 0..N+1) over an alphabet of genuine leaf proofs (two blocks, two assets, two fees, shared exit accounts with group sums 2^32-1 and 2^32, duplicates, the dummy template, an asset-1 dummy, three tampered proofs) given to the real PrivateBatchProver::commit; oracle: Ok => documented policy holds and the committed witness (read back through hook H3) satisfies the wrapper constraints (and, on a subset, the full recursive circuit and a real prove()); Err with a policy-conformant vector => no arrangement of the padded batch satisfies the circuit. Same for the public layer through the admission preflight (hook H6) plus real commits. distinct = distinct vectors");
